@@ -16,7 +16,7 @@ Prefix == << A0("group", 0, Zero), A0("group", 1, Zero), A0("leaf", 2, Boxes[2])
 Init == \/ st = <<>> /\ hist = <<>>
         \/ st = FoldLeft(LAMBDA acc, a : GrpImplStep(acc, a), <<>>, Prefix) /\ hist = Prefix
 Nested == Len(hist) >= 4 /\ SubSeq(hist, 1, 4) = Prefix
-Do(a) == Len(hist) < (IF Nested THEN 6 ELSE DEPTH) /\ st' = GrpImplStep(st, a) /\ hist' = Append(hist, a)
+Do(a) == Len(hist) < (IF Nested /\ DEPTH < 6 THEN 6 ELSE DEPTH) /\ st' = GrpImplStep(st, a) /\ hist' = Append(hist, a)
 AddLeaf == \E g \in Groups(st) \cup {0} : \E b \in 1..NBOX :
              Do([op |-> "leaf", parent |-> g, x |-> Boxes[b].x, y |-> Boxes[b].y, cx |-> Boxes[b].cx, cy |-> Boxes[b].cy, ids |-> {}])
 AddGroup == \E g \in Groups(st) \cup {0} : DepthOf(st, g) < MAXDEPTH /\
